@@ -30,6 +30,7 @@ package main
 // and reports the relay; (b) has nothing to judge.  Nothing is executed.
 
 import (
+	"go/token"
 	"go/types"
 
 	"golang.org/x/tools/go/ssa"
@@ -132,6 +133,7 @@ func c04R12(c *Ctx) {
 
 	// (a) every function that admits and relays
 	done := map[*ssa.Function]bool{}
+	var wrappers []*types.Func
 	n := 0
 	for _, f := range adm {
 		for _, s := range c.CallSites(f) {
@@ -144,9 +146,29 @@ func c04R12(c *Ctx) {
 				continue // the family's own wrappers
 			}
 			if len(instrsWhere(top, isRelay)) == 0 {
-				continue // admits, relays nothing
+				// admits, relays nothing itself: when it is an unexported function
+				// (the insert extracted out of the relaying writer), the admission is
+				// judged at its callers — the call of the helper stands for the
+				// admission it performs (depth 1)
+				if fo := funcObjOf(top); fo != nil && !token.IsExported(fo.Name()) {
+					wrappers = append(wrappers, fo)
+				}
+				continue
 			}
 			n += c.MustCrossFrom(R, top, "relay after admission shows no TTL above the admitted lifetime", isAdm, isRelay, boundCall, nothingStored)
+		}
+	}
+	for _, w := range wrappers {
+		for _, s := range c.CallSites(w) {
+			top := TopLevel(s.Fn)
+			if top == nil || done[top] {
+				continue
+			}
+			done[top] = true
+			if len(instrsWhere(top, isRelay)) == 0 {
+				continue
+			}
+			n += c.MustCrossFrom(R, top, "relay after admission shows no TTL above the admitted lifetime", isCallTo(w), isRelay, boundCall, nothingStored)
 		}
 	}
 	if n == 0 {
